@@ -392,7 +392,9 @@ func seqSet(s *simrt.Sim) {
 			got := set.Intersect(otherSet(s, l)).ToSlice()
 			want := keep(model, func(e E) bool { return has(l, e) })
 			s.Logf("Intersect(%v) -> %v", l, got)
-			if !eq(got, want) {
+			// (the statement fixes the members of the result - "matches the mathematical definition" -, not the order
+			// in which the result set lists them: intersection is symmetric)
+			if !sameSet(got, want) {
 				bad("Intersect", "Intersect(%v) on %v = %v, want %v", l, model, got, want)
 			}
 		case 11:
@@ -401,14 +403,14 @@ func seqSet(s *simrt.Sim) {
 			got := set.Filter(pred).ToSlice()
 			want := keep(model, pred)
 			s.Logf("Filter(k=%d) -> %v", k, got)
-			if !eq(got, want) {
+			if !sameSet(got, want) {
 				bad("Filter", "Filter on %v = %v, want %v", model, got, want)
 			}
 		case 12:
 			c := set.Clone()
 			got := c.ToSlice()
 			s.Logf("Clone -> %v", got)
-			if !eq(got, model) {
+			if !sameSet(got, model) {
 				bad("Clone", "Clone of %v = %v", model, got)
 			}
 			// the clone is independent (the original is compared with the model below)
